@@ -212,7 +212,10 @@ func (a *An) c11Secret() {
 		a.TermIs(rule, "smpVersion", "SMP version byte", fn.Blocks[0].Instrs[0], ssaConstOf(a, "smpVersion"), "1")
 	}
 	// the secret enters the computations as x (initiator) and y (responder)
-	for _, u := range []struct{ fn, callee string; idx int }{
+	for _, u := range []struct {
+		fn, callee string
+		idx        int
+	}{
 		{"(smpStateExpect2).receiveMessage2", "(*Conversation).generateSMP3", 1},
 		{"(smpStateWaitingForSecret).continueMessage1", "(*Conversation).generateSMP2", 1},
 		{"(smpStateExpect3).receiveMessage3", "(*Conversation).generateSMP4", 1},
